@@ -11,7 +11,7 @@ RULE_ROUTE = (
     "TraversalModelService::build(query) (update_from_query), StateModel::extend(state_features()), then "
     "TraversalModel::traverse_edge over 1-40 edges, estimate_traversal and best_case_energy; deterministic families "
     "first (every start-charge class x vehicle: absent, 0, 100, -0.0, 50, 99.999, 1e-3, 100.0000001, -1e-9, -1, 100.5, 150, strings, null, bool, array, object; regeneration into a full battery / exhaustion / PHEV switch at 1, 2, 10, 40 "
-    "edges; rejected edges; the 3x5x4 unit grid of the time model), then random routes in random unit configurations "
+    "edges; rejected edges; the 3x5x4 unit grid of the time model; the application's state-model assembly with a [state] section (StateModel::try_from) pre-declaring battery_state / energy features with another initial value or unit and query `state_features` overrides through search_app_ops::collect_features: the later definition counts; batteries ALMOST run down: start charge = consumption of the first 1-3 edges + 5e-10 energy units, so 0 < remaining < 1e-9), then random routes in random unit configurations "
     "(time model, service, prediction model, battery, optionally re-targeted state-model units). The state vector after "
     "EVERY edge is compared BIT FOR BIT with the FN model (M), and judged by the exact-rational checker of "
     "Model/VehicleSpec.v (S: energy = rate(speed', grade') x adjustment x length within 1e-9, additivity, SOC in [0,100], "
@@ -21,7 +21,7 @@ RULE_ROUTE = (
 RULE_CACHE = (
     "the same generator with a FloatCachePolicy (capacity 1..10000, key precisions 0-1 / 2-4) on every prediction model "
     "record; table speeds and grades are drawn from well separated values so that distinct inputs keep distinct rounded "
-    "keys (inputs stable under the cache's rounding); the LRU cache itself is part of the FN model (bit-exact "
+    "keys (inputs stable under the cache's rounding); family distinct-keys-arithmetic: two DISTINCT rounded keys with dkey(grade) = -m * dkey(speed) for every m in 1..64 (and dkey(speed) = +-2), and keys differing by 2^31, 2^32, 2^33, driven alternately on one cached record: distinct keys must never share an entry; the LRU cache itself is part of the FN model (bit-exact "
     "comparison, including evictions); family dcache-exhibit shows the known limitation D-CACHE on the real code "
     "(two speeds with one rounded key: the second edge is charged at the first edge's rate) and is judged only when "
     "the class K_cache_collision is registered for C08")
@@ -140,7 +140,7 @@ def run(chk):
         vf.compare(chk, r, classify=classify, binpath=binp)
     if _is(chk, "cache"):
         extra = judge
-        r2 = vf.run_stream(binp, "cache", 260 if quick else 4000, chk.seed, os.path.join(chk.outdir, "cache"),
+        r2 = vf.run_stream(binp, "cache", 370 if quick else 4000, chk.seed, os.path.join(chk.outdir, "cache"),
                            extra=extra, replay=chk.replay)
         chk.add_stream(r2, RULE_CACHE)
         vf.compare(chk, r2, classify=classify, binpath=binp, extra=extra)
